@@ -200,6 +200,24 @@ def extra_checks(rng, tier, notes):
                                                             else None for x in (tot_out, tot_in, inside.broadcast_like(tot_in))])
             bad = inside & (tot_out != tot_in)
             cols_checked += int(inside.sum())
+            # no state is carried from one call to the next: after a transform of ANOTHER field of the same
+            # name, dimensions and shape on the same Grid, the call gives what it gave before
+            if td is not None:
+                with warnings.catch_warnings():
+                    warnings.simplefilter("ignore")
+                    other = (td[::-1] if td.ndim == 1 else td.isel({td.dims[0]: slice(None, None, -1)})) * 1.0 + 0.5
+                    other = other.assign_coords({d: td[d] for d in td.dims if d in td.coords}).rename(td.name)
+                    # (on a Grid of its own, so that the other field is the first thing this Grid sees)
+                    gB, daB, targetB, kwB, _ = K8.build_grid_call(case)
+                    try:
+                        gB.transform(daB, "Z", targetB, **{**kwB, "target_data": other})
+                    except Exception:
+                        pass
+                    r_again = gB.transform(daB, "Z", targetB, **kwB)
+                if list(r_again.dims) != list(r.dims) or not np.array_equal(np.asarray(r_again.values), np.asarray(r.values), equal_nan=True):
+                    out.append((case, {"first": np.asarray(r.values).tolist(), "after_another_call": np.asarray(r_again.values).tolist()},
+                                "the same conservative transform gives another result after a transform of a "
+                                "different target_data of the same name and shape on the same Grid"))
             # the bins are the VALUES of `target`, however it is packaged: a DataArray without a
             # coordinate, or labelled by something else (the edge number), bins the same way
             for pack in ({"target_nocoord": True}, {"target_labels": "index"}):
@@ -222,6 +240,57 @@ def extra_checks(rng, tier, notes):
                         f"Grid.transform(method='conservative') raised {type(e).__name__} on a well-posed call"))
     notes.append(f"conservation through Grid.transform checked on {done} calls, {cols_checked} in-span columns")
     out.extend(awkward_values(rng, tier, notes))
+    out.extend(all_integer_lazy(rng, tier, notes))
+    return out
+
+
+def all_integer_lazy(rng, tier, notes):
+    """Everything held as integers (data, target_data, bin edges) and chunked over the extra dimension: the
+    lazy result must say that it is floating point (bin contents are fractions), and summing it lazily
+    gives the column totals."""
+    import warnings
+    import numpy as np
+    import xarray as xr
+    from xgcm import Grid
+    out = []
+    n = 20 if tier == "quick" else 300
+    for i in range(n):
+        N, nx = rng.randint(1, 4), rng.randint(1, 3)
+        theta = np.array([gen_profile(rng, N) for _ in range(nx)], dtype="int64")
+        lo, hi = int(theta.min()), int(theta.max())
+        inner = sorted(set(rng.randint(lo, hi) for _ in range(rng.randint(0, 3))) - {lo, hi})
+        edges = [lo - rng.choice([0, 1])] + inner + [hi + rng.choice([0, 1, 2])]
+        # (unsigned when nothing is negative: differences of unsigned integers wrap around)
+        # every integer type in both orientations in turn (enumerated, not sampled)
+        kinds = ["int64", "uint8", "int32", "uint16"]
+        dt = kinds[i % 4] if min(edges) >= 0 or i % 2 == 0 else "int64"
+        edges = np.array(edges, dtype=dt)
+        if len(set(edges.tolist())) < 2:
+            edges = np.array([lo, lo + 1], dtype="int64")
+        if (i // 4) % 2 == 0:
+            edges = edges[::-1].copy()
+        phi = np.array([[rng.randint(-6, 9) for _ in range(N)] for _ in range(nx)], dtype="int64")
+        rec = {"phi": phi.tolist(), "theta": theta.tolist(), "bins": edges.tolist(), "all": "integers, chunked over x"}
+        try:
+            with warnings.catch_warnings():
+                warnings.simplefilter("ignore")
+                ds = xr.Dataset(coords={"zc": np.arange(N) + 0.5, "zo": np.arange(N + 1.0), "x": np.arange(nx)})
+                g = Grid(ds, coords={"Z": {"center": "zc", "outer": "zo"}}, periodic=False, autoparse_metadata=False)
+                da = xr.DataArray(phi, dims=["x", "zc"]).chunk({"x": 1})
+                td = xr.DataArray(theta, dims=["x", "zo"], name="level").chunk({"x": 1})
+                r = g.transform(da, "Z", edges, target_data=td, method="conservative")
+                declared = r.dtype
+                comp = r.compute()
+                lazy_tot = r.sum(r.dims[-1]).compute().transpose("x").values
+            tot_in = phi.sum(-1).astype(float)
+            if declared != comp.dtype or not np.array_equal(np.asarray(lazy_tot, dtype=float), tot_in):
+                out.append((rec, {"declared": str(declared), "computes_to": str(comp.dtype),
+                                  "lazy_sum": np.asarray(lazy_tot).tolist(), "sum_cells": tot_in.tolist()},
+                            "all-integer lazy conservative transform: the lazy result does not say what it is, or its "
+                            "lazy sum is not the column total"))
+        except Exception as e:
+            out.append((rec, {"err": type(e).__name__ + ": " + str(e)[:200]}, "conservative transform raised on a well-posed call"))
+    notes.append(f"{n} all-integer lazy conservative transforms: declared dtype and lazy column totals")
     return out
 
 
